@@ -242,7 +242,9 @@ def _xparam(cname, p):
 
 
 def _p_boundary(cname, p):
-    return cname in ("DistGeometric", "DistNegBinomial") and p.get("p") in (0.0, 1.0)
+    """Geometric / NegBinomial: 1 - p is 0.0 or rounds to 1.0 (p = 1, p = 0, 0 < p < 2**-53)"""
+    q = p.get("p")
+    return cname in ("DistGeometric", "DistNegBinomial") and isinstance(q, float) and (1.0 - q) in (0.0, 1.0)
 
 
 def _is_extreme(u):
@@ -250,6 +252,7 @@ def _is_extreme(u):
 
 
 def _input_predicate(us):
+    """the most extreme class of uniform among those handed to the failing draw() call"""
     if any(u == 0.0 for u in us):
         return "u0"
     if any(0.0 < u < MIN_NORMAL for u in us):
@@ -321,7 +324,9 @@ class _Ctx:
             except Exception as e:      # noqa: BLE001
                 us = stream.floats_since(pos)
                 self._note_extreme(us, stream)
-                pred = "p-boundary" if self.pb else _input_predicate(us)
+                # the polar method consumes pairs and fails in its last pair; earlier pairs were rejected
+                window = us[-2:] if self.cname in NORMAL_FAMILY else us
+                pred = "p-boundary" if self.pb else _input_predicate(window)
                 kind = "draw-raises:%s:%s:%s" % (self.cname, type(e).__name__, pred)
                 if self.cname == "DistNormalTrunc" and str(e).startswith("drawn value"):
                     kind += ":outside-interval"
@@ -354,7 +359,7 @@ class _Ctx:
                 what = "out-of-range"
             elif c == "DistDiscreteUniform" and not p["lo"] <= x <= p["hi"]:
                 what = "out-of-range"
-            elif x < 0:
+            elif c in ("DistGeometric", "DistNegBinomial", "DistPoisson") and x < 0:
                 what = "negative"
         elif c == "DistConstant":
             if type(x) is not type(p["constant"]) or _bits(x) != _bits(p["constant"]):
@@ -373,6 +378,11 @@ class _Ctx:
                     what = "below-lo"
                 elif x > p["hi"]:
                     what = "above-hi"
+        if what in ("below-lo", "above-hi"):
+            excess = (p["lo"] - x) if what == "below-lo" else (x - p["hi"])
+            width = p["hi"] - p["lo"]
+            if math.isfinite(width) and excess <= 1e-9 * width:
+                what += ":rounding"         # a few ulps of the interval width
         if what is not None:
             self.fail("support:%s:%s" % (c, what),
                       {"params": _show(p), "draw": _bits(x), "uniforms": [repr(u) for u in us[:8]]})
@@ -690,7 +700,7 @@ def _wrappers():
                    if issubclass(c, U.QuantityDist) and hasattr(c, "quantity")), key=lambda c: c.__name__)
 
 
-SI_UNITS = ["m/s", "kgm/s2", "s", "m2", "kgm2/s3A", "mol/m3", "1/s"]
+SI_UNITS = ["m/s", "kgm/s2", "s", "m2", "kgm2/s3A", "mol/m3", "/s"]
 
 
 def _scen_wrapper(out, ctx, case, n, ref):
@@ -772,7 +782,7 @@ def _val(kind):
                          _logpos(), _logpos().map(lambda x: -x), st.integers(-500, 500))
     if kind == "prob":
         return st.one_of(st.sampled_from([0.0, 1.0, 0.5, 1e-3, 1.0 - 1e-3, 2.0 ** -53, 1.0 - 2.0 ** -53]),
-                         st.floats(min_value=0.0, max_value=1.0))
+                         st.floats(min_value=1e-3, max_value=1.0 - 1e-3))
     if kind == "cnt":
         return st.one_of(st.sampled_from([1, 2, 9, 10, 11, 500]), st.integers(1, 40), st.integers(1, 500))
     return st.integers(-500, 500)
